@@ -543,9 +543,9 @@ fn c01_separator_before_register() {
     kani::assume(d < 8);
     let seps = [b' ', b'\t', b'\n', b'\r', b',', b':'];
     let mut k = 0;
-    while k < 12 {
+    while k < 6 {
         let sep = seps[k % 6];
-        let upper = k >= 6;
+        let upper = k % 2 == 1;
         let buf = [sep, if upper { b'R' } else { b'r' }, b'0' + d];
         let text: &str = unsafe { core::str::from_utf8_unchecked(&buf[..]) };
         let src: &'static str = unsafe { &*(text as *const str) };
